@@ -2518,6 +2518,10 @@ def bittest_get(a, b):
         off_bit = ExprOp('&', b, ExprInt_from(a, a.get_size() - 1))
         d = a
         #d = ExprOp('>>', a, off_bit)
+    elif isinstance(b, ExprInt):
+        # an immediate bit offset is taken modulo the operand size: no displacement
+        off_bit = ExprOp('&', b, ExprInt_from(a, a.get_size() - 1))
+        d = a
     else:
         off_bit = ExprOp('&', b, ExprInt_from(a, a.get_size() - 1))
         off_byte = ExprOp("&",
